@@ -86,7 +86,7 @@ PROPS = {
     "C01": dict(module="ZkElGamal.Props.C01", ns="Zk.Props.C01", trusted=[DALEK, MERLIN], assumptions=[ROM, DALEK, MERLIN]),
     "C02": dict(module="ZkElGamal.Props.C02", ns="Zk.Props.C02", trusted=[DALEK, MERLIN], assumptions=[ROM, DALEK, MERLIN]),
     "C03": dict(module="ZkElGamal.Props.C03", ns="Zk.Props.C03", trusted=[DALEK, MERLIN], assumptions=[ROM, DALEK, MERLIN]),
-    "C04": dict(module="ZkElGamal.Props.C04", ns="Zk.Props.C04", trusted=[DALEK, MERLIN],
+    "C04": dict(module="ZkElGamal.Props.C04Sound", more_modules=["ZkElGamal.Props.C04"], ns="Zk.Props.C04", trusted=[DALEK, MERLIN],
                 assumptions=[ROM, DALEK, MERLIN,
                              "Bulletproofs knowledge soundness (an extractor for the aggregated range proof) is NOT proved: 'a value outside the range is never accepted' rests on mega_decompose + the batching bound + differential testing of the model prover's out-of-range / wrong-commitment / residual attempts against both verifiers",
                              "generators: SHAKE256 chains are external (sha3); concrete derivation validated implicitly (any wrong generator makes cross-verification fail)"]),
